@@ -73,9 +73,36 @@ def nt_bytes(data):
     return len(calls) >= 2 or "BUILD" in calls
 
 
+FUZZ_SEEDS = (
+    b"cos\nsystem\n(S'x'\ntR.", b"(cos\nsystem\nS'x'\no0N.", b"cos\nsystem\n)\x81}b.",
+    b"\x80\x04\x8c\x02os\x8c\x06system\x93\x8c\x01x\x85R\x94h\x00\x86.", b"(lp0\nI1\naI2\na(dp1\nVk\np2\ng0\nsa.",
+    b"]q\x00(K\x01K\x02e}q\x01(h\x00h\x00u\x86.", b"\x8f\x94(K\x01K\x02\x90(K\x03\x91h\x00\x86.", b"NNQ0(NNd.",
+)
+
+
 def shards(tier):
-    return _progdiff.shards(tier, quick_len=4, thorough_len=6)
+    out = _progdiff.shards(tier, quick_len=4, thorough_len=6)
+    out += _fuzz_shards(tier)
+    return out
+
+
+def _fuzz_shards(tier):
+    runs = 30000 if tier == "quick" else 1500000
+    n = 1 if tier == "quick" else 6
+    return [{"kind": "atheris", "runs": runs, "idx": i} for i in range(n)]
 
 
 def run_shard(spec, seed):
+    if spec["kind"] == "atheris":
+        import os
+
+        from vlib import decode, fuzz
+        from vlib.runner import ShardResult
+
+        res = ShardResult()
+        fuzz.run_atheris(
+            res, f"c03-{spec['idx']}", os.path.join(os.path.dirname(__file__), "prog_fuzz.py"), ["C03"],
+            spec["runs"], seed, seeds=FUZZ_SEEDS if spec["idx"] % 2 == 0 else (), nt=decode.in_typed_domain,
+        )
+        return res
     return _progdiff.run_shard(spec, seed, judge, nt_prog, nt_bytes)
